@@ -171,18 +171,35 @@ def check(repo, rep, tier):
         if mku:
             seen_un = True
     rep.check(seen_bin and seen_un, 'R8.2', wt_, 'parse_tree:arity', 'both unary and binary nodes are rebuilt', 'binary path: %s, unary path: %s' % (seen_bin, seen_un))
-    wl = [n for n in ast.walk(pt) if isinstance(n, ast.While)]
-    ok = len(wl) == 1 and src(wl[0].test).replace(' ', '') == "self.peek()!=')'" and any(
-        isinstance(n, ast.Call) and src(n.func) == 'self.next_node' for n in ast.walk(wl[0]))
-    after = pt.body[pt.body.index(wl[0]) + 1] if ok and wl[0] in pt.body else None
-    ok = ok and after is not None and src(after).strip() == 'self.next()'
-    rep.check(ok, 'R8.2', wt_, 'parse_tree:child-loop', 'children are read until the closing bracket, which is then consumed',
-              'child loop is not `while self.peek() != ")": ... next_node()` followed by consuming the bracket')
+    # child loop: read children until the closing bracket, then consume it
+    loop_ok = False
+    for st, o in cur.paths:
+        if o != 'return':
+            continue
+        enter = [i for i, e in enumerate(st.events) if e[0] == 'loop-enter']
+        exit_ = [i for i, e in enumerate(st.events) if e[0] == 'loop-exit']
+        if not enter or not exit_:
+            continue
+        c = st.events[enter[0]][1]
+        test_ok = c in (('cmp', '!=', ('call', A(N('self'), 'peek'), (), ()), C(')')),)
+        inside = st.events[enter[0]:exit_[0]]
+        child = [e for e in inside if e[0] == 'call' and e[1][1] == A(N('self'), 'next_node')]
+        nexts_in = [e for e in inside if e[0] == 'call' and e[1][1] == A(N('self'), 'next')]
+        nexts_after = [e for e in st.events[exit_[0]:] if e[0] == 'call' and e[1][1] == A(N('self'), 'next')]
+        if test_ok and len(child) == 1 and not nexts_in and len(nexts_after) == 1:
+            loop_ok = True
+    rep.check(loop_ok, 'R8.2', wt_, 'parse_tree:child-loop', 'children are read with next_node() until the closing bracket, which is then consumed by one cursor read',
+              'child loop is not `while self.peek() != ")": next_node()` followed by exactly one cursor read')
     # dispatch on the marker
     nn = rm.get('_AutoLineReader.next_node')
-    txt = src(nn)
-    rep.check("== 'L'" in txt and "== 'T'" in txt and 'self.index + 2' in txt, 'R8.2', '%s:%s _AutoLineReader.next_node' % (RD, nn.lineno), 'next_node:dispatch',
-              'records are dispatched on the marker letter at offset 2 ("(<L" / "(<T")', 'next_node does not dispatch on L/T at offset 2')
+    disp = {}
+    for st, o in SymExec(nn).run():
+        for c, pol, _ in st.conds:
+            if pol and c[0] == 'cmp' and c[1] == '==' and c[3][0] == 'const' and c[2] == ('sub', A(N('self'), 'line'), ('binop', '+', A(N('self'), 'index'), C(2))):
+                disp[c[3][1]] = st.ret if o == 'return' else o
+    rep.check(disp.get('L') == A(N('self'), 'parse_leaf') and disp.get('T') == A(N('self'), 'parse_tree'), 'R8.2',
+              '%s:%s _AutoLineReader.next_node' % (RD, nn.lineno), 'next_node:dispatch',
+              'records are dispatched on the marker letter at offset 2: L -> parse_leaf, T -> parse_tree', 'next_node dispatch is %s' % {k: show(v) if isinstance(v, tuple) else v for k, v in disp.items()})
     # conll fragments
     cm = repo.module(CONLL)
     crec = cm.get('conll_of.rec')
